@@ -17,10 +17,17 @@ func init() {
 }
 
 // acceptGate is an accept/dial hook that rejects while Reject is set.
-type acceptGate struct{ Reject bool }
+// acceptGate may first name the session (as an authentication plugin does with the claimed identity) and then reject it.
+type acceptGate struct {
+	Reject bool
+	SetID  string
+}
 
 func (a *acceptGate) Name() string { return "acceptgate" }
 func (a *acceptGate) PostAccept(s erpc.PreSession) *erpc.Status {
+	if a.SetID != "" {
+		s.SetID(a.SetID)
+	}
 	if a.Reject {
 		return erpc.NewStatus(401, "rejected by hook", "")
 	}
@@ -174,6 +181,13 @@ func c07Hist(p Params) func() {
 				if !s.used && !w.srvClosed {
 					ops = append(ops, op{fmt.Sprintf("accept%d", i), func() { w.accept(i, false) }})
 					ops = append(ops, op{fmt.Sprintf("reject%d", i), func() { w.accept(i, true) }})
+					ops = append(ops, op{fmt.Sprintf("rejectnamed%d", i), func() {
+						// the hook names the session, then rejects it: the name must not stay in the index
+						w.gate.SetID = fmt.Sprintf("claimed%d", i)
+						s.ids = append(s.ids, w.gate.SetID)
+						w.accept(i, true)
+						w.gate.SetID = ""
+					}})
 				}
 				if s.live {
 					ops = append(ops, op{fmt.Sprintf("setidX%d", i), func() { w.setID(i, "X") }})
